@@ -21,10 +21,17 @@ Tie to the code (this file), three instruments, all executed on real objects:
      against the model's declared write footprint (fp_agrees) and against the
      property's footprint condition (fp_spec_ok).
   2. SCHEDULER: real threads gated by sys.settrace so that exactly one runs at
-     a time; single-preemption interleavings of two invocations and random
+     a time; single-preemption interleavings of two invocations (thorough: all
+     49 ordered pairs of call kinds x every call/return event) and random
      <=3-preemption schedules of 2..4 threads; per thread the request sent and
-     the value returned are compared with the solo run; the model is executed
-     under the corresponding schedule in Coq (sc_agrees / sc_spec_ok).
+     the value returned are compared with the solo run.  The point where a
+     thread is suspended is mapped to a LABEL of the model program (which
+     instruction of call_code it has completed, read off the thread's stack:
+     Tracker) and the model is executed in Coq under the same labelled
+     interleaving (run_plan; theorem labelled_plan_is_schedule) -- sc_agrees /
+     sc_spec_ok.
+  5. CREDENTIALS: HTTP basic authentication state on the shared transport
+     (outside the anchors; reported only under a registered key).
   3. CLONES: clone() on every generated client state, option isolation both
      ways, own message history, shared WSDL (cl_agrees / cl_spec_ok).
   4. Endpoint.__getattr__ probed the way copy.deepcopy meets it while cloning
@@ -1586,12 +1593,15 @@ def run(ck):
                "option variants x {original, clone, clone of clone} x {cold, warm caches}; schedules: for each "
                "ordered pair of call kinds and client relation {same client, clone, clone of clone, separate "
                "clients}, single-preemption interleavings at function call/return events inside suds "
-               "(quick: first occurrence of every function of the anchored modules plus a random sample; "
-               "thorough: every event, exhaustive), plus random schedules with <=3 preemptions at line "
-               "granularity among 2..4 threads; clones: clone() on clients after random option histories. "
+               "(quick: 21 scenarios, first occurrences of every function event dealt over them plus a sample; "
+               "thorough: ALL 49 ordered pairs of call kinds, EVERY call/return event of the preempted call, "
+               "in parallel worker processes); every executed schedule is mapped to the model by LABELS (the "
+               "model instruction the suspended thread is executing, read off its stack) and the model program "
+               "is run in Coq under the same labelled interleaving; plus random schedules with <=3 preemptions "
+               "at line granularity among 2..4 threads; clones: clone() on clients after random option histories. "
                "distinct = distinct (scenario, arguments, schedule); non-trivial = the preempted thread was "
                "really suspended inside suds while another ran, or the call wrote shared state")
-    ck.exhaustive = False
+    ck.exhaustive = not quick      # thorough: the single-preemption scope of the quantifier is enumerated
     ck.extra["schedule_classes"] = getattr(ck, "_sc_classes", {})
 
     if not proof_ok:
